@@ -572,7 +572,7 @@ Proof.
   - split; [|split].
     + eapply frameN_trans; [exact F07|].
       eapply frameN_trans; [eapply frameN_weaken; [exact F8 | right; unfold bodyb, n; lia | lia]|].
-      eapply frameN_trans; [apply frameN_ef | apply frameN_same; try lia; assumption].
+      apply (frameN_trans _ _ _ t9); [apply frameN_ef | apply frameN_same; try lia; assumption].
       intros a Ea. right. destruct (Hab _ Ea) as [[H1 | H1] _]; [subst; unfold bodyb, n; lia | lia].
     + eapply wf_same; [| exact Se | exact Sr |]; [lia|]. apply wf_ef; [exact W8|].
       intros a Ea. apply (Hab _ Ea).
@@ -589,4 +589,155 @@ Proof.
       eapply path_step; [exact NfH | apply Inc; exact Ehb |].
       eapply path_ext; [exact E8f | exact Cl8].
     + intros v. exact I.
+Qed.
+
+Ltac in_edges H :=
+  repeat (apply in_app_or in H; destruct H as [H | H]);
+  try (destruct H as [H | H]; [inversion H; subst; clear H | destruct H]).
+
+Ltac in_solve := repeat (first [apply in_last | apply in_or_app; left]).
+
+Lemma loop_prefix (lt : bool) t c :
+  wf t -> c <= nblk t ->
+  let header := S (nblk t) in let bodyb := S (S (nblk t)) in let after := S (S (S (nblk t))) in
+  let t5 := nb (add_edge header bodyb (nb (add_edge c header (nb t)))) in
+  let t7 := set_flags false false (if lt then t5 else add_edge header after t5) in
+  nblk t7 = S (S (S (nblk t))) /\ rets t7 = rets t /\ n_outside t7 = n_outside t /\ wf t7 /\
+  frameN (nblk t) c t t7 /\
+  (forall x y, In (x, y) (edges t7) -> x <= S (nblk t)) /\
+  In (c, header) (edges t7) /\ In (header, bodyb) (edges t7) /\
+  (lt = false -> In (header, after) (edges t7)).
+Proof.
+  intros W C header bodyb after t5 t7.
+  assert (W5 : wf t5).
+  { unfold t5. apply wf_nb. apply wf_ae; [|stp; unfold header; lia]. apply wf_nb.
+    apply wf_ae; [|stp; lia]. apply wf_nb. exact W. }
+  assert (F5 : frameN (nblk t) c t t5).
+  { unfold t5. apply (frameN_trans _ _ _ (nb t)); [apply frameN_nb|].
+    apply (frameN_trans _ _ _ (add_edge c header (nb t))); [apply frameN_ae; left; reflexivity|].
+    apply (frameN_trans _ _ _ (nb (add_edge c header (nb t)))); [apply frameN_nb|].
+    apply (frameN_trans _ _ _ (add_edge header bodyb (nb (add_edge c header (nb t)))));
+      [apply frameN_ae; right; unfold header; lia | apply frameN_nb]. }
+  assert (N5 : nblk t5 = S (S (S (nblk t)))) by (unfold t5; stp; reflexivity).
+  destruct W as [W1 W2].
+  unfold t7. destruct lt.
+  - split; [stp; exact N5|]. split; [unfold t5; stp; reflexivity|]. split; [unfold t5; stp; reflexivity|].
+    split; [apply wf_sf; exact W5|]. split; [eapply frameN_trans; [exact F5 | apply frameN_sf]|].
+    split; [|split; [|split]].
+    + intros x y H. unfold t5 in H. stp. in_edges H; try (unfold header; lia). apply W1 in H. lia.
+    + unfold t5. stp. in_solve.
+    + unfold t5. stp. in_solve.
+    + discriminate.
+  - split; [stp; exact N5|]. split; [unfold t5; stp; reflexivity|]. split; [unfold t5; stp; reflexivity|].
+    split; [apply wf_sf; apply wf_ae; [exact W5 | rewrite N5; unfold header; lia]|].
+    split; [eapply frameN_trans; [exact F5|]; apply (frameN_trans _ _ _ (add_edge header after t5)); [apply frameN_ae; right; unfold header; lia | apply frameN_sf]|].
+    split; [|split; [|split]].
+    + intros x y H. unfold t5 in H. stp. in_edges H; try (unfold header; lia). apply W1 in H. lia.
+    + unfold t5. stp. in_solve.
+    + unfold t5. stp. in_solve.
+    + intros _. unfold t5. stp. in_solve.
+Qed.
+
+Lemma case_while lt body : P_block body -> P_stmt (SWhile lt body).
+Proof.
+  intros IH t c L t' r H Pre. rewrite build_while_eq in H. cbv zeta in H.
+  destruct Pre as (W & C & Pre3). 
+  destruct (loop_prefix lt t c W C) as (N7 & R7 & O7 & W7 & F07 & Src & Ech & Ehb & Eha).
+  cbv zeta in *.
+  set (t6 := if lt then _ else _) in *.
+  destruct (build_block body (set_flags false false t6) (S (S (nblk t))) (Some (S (S (S (nblk t))), S (nblk t))))
+    as [t8 ab] eqn:Hb.
+  inversion H; subst t' r; clear H.
+  assert (Inv : build_inv t c L
+     (if negb (lbrk t8) && negb (lret t8) && lt
+      then diag_infloop (set_flags (lbrk t6) (lret t6) (edge_from ab (S (nblk t)) t8))
+      else set_flags (lbrk t6) (lret t6) (edge_from ab (S (nblk t)) t8))
+     (Some (S (S (S (nblk t))))) (run_loop lt body)).
+  { apply (loop_core lt body t c L (set_flags false false t6) t8 ab); auto.
+    - split; [exact W | split; [exact C | exact Pre3]].
+    - destruct (negb (lbrk t8) && negb (lret t8) && lt); unfold same; stp; auto. }
+  destruct Inv as [P Cl]. split; [exact P|]. intros o Ho. apply Cl. apply run_while_inv. exact Ho.
+Qed.
+
+Lemma case_for body : P_block body -> P_stmt (SFor body).
+Proof.
+  intros IH t c L t' r H Pre. rewrite build_for_eq in H. cbv zeta in H.
+  destruct Pre as (W & C & Pre3).
+  destruct (loop_prefix false t c W C) as (N7 & R7 & O7 & W7 & F07 & Src & Ech & Ehb & Eha).
+  cbv zeta in *. cbv iota in *.
+  set (t6 := add_edge _ _ _) in *.
+  destruct (build_block body (set_flags false false t6) (S (S (nblk t))) (Some (S (S (S (nblk t))), S (nblk t))))
+    as [t8 ab] eqn:Hb.
+  inversion H; subst t' r; clear H.
+  assert (Inv : build_inv t c L (set_flags (lbrk t6) (lret t6) (edge_from ab (S (nblk t)) t8))
+     (Some (S (S (S (nblk t))))) (run_loop false body)).
+  { apply (loop_core false body t c L (set_flags false false t6) t8 ab); auto.
+    - split; [exact W | split; [exact C | exact Pre3]].
+    - unfold same; stp; auto. }
+  destruct Inv as [P Cl]. split; [exact P|]. intros o Ho. apply Cl. apply run_for_inv. exact Ho.
+Qed.
+
+(* ------------------------------------------------------------------ the induction over the builder *)
+Scheme stmt_bi := Induction for stmt Sort Prop
+  with block_bi := Induction for block Sort Prop
+  with ifs_bi := Induction for ifs Sort Prop
+  with els_bi := Induction for els Sort Prop
+  with arms_bi := Induction for arms Sort Prop.
+Combined Scheme build_mutind from stmt_bi, block_bi, ifs_bi, els_bi, arms_bi.
+
+Theorem build_invariant :
+  (forall s, P_stmt s) /\ (forall b, P_block b) /\ (forall i, P_ifs i) /\ (forall e, P_els e) /\ (forall a, P_arms a).
+Proof.
+  apply build_mutind.
+  - exact case_simple.
+  - exact case_return.
+  - exact case_break.
+  - exact case_continue.
+  - exact case_sif.
+  - exact case_while.
+  - exact case_for.
+  - exact case_match.
+  - exact case_sblock.
+  - exact case_nil.
+  - intros s Hs b Hb. exact (case_cons s b Hs Hb).
+  - intros t Ht e He. exact (case_ifs t e Ht He).
+  - exact case_enone.
+  - exact case_eblock.
+  - exact case_eif.
+  - exact case_anil.
+  - intros d b Hb a Ha. exact (case_acons d b a Hb Ha).
+Qed.
+
+Lemma pre_st0 : pre st0 ENTRY None.
+Proof.
+  split; [split; simpl; intros; contradiction|]. split; [simpl; unfold ENTRY; lia|].
+  split; [intros [y []]|]. split; [intros []|exact I].
+Qed.
+
+Lemma function_inv body :
+  let '(t, cur) := build_block body st0 ENTRY None in build_inv st0 ENTRY None t cur (run_block body).
+Proof.
+  destruct (build_block body st0 ENTRY None) as [t cur] eqn:H.
+  exact (proj1 (proj2 build_invariant) body _ _ _ _ _ H pre_st0).
+Qed.
+
+(* every run that falls off the end of the body is a return-free path entry ->* exit of the built graph *)
+Theorem graph_covers_falling_runs body :
+  run_block body ONormal -> path (build_function body) ENTRY EXIT.
+Proof.
+  intros Hr. unfold build_function. assert (Inv := function_inv body).
+  destruct (build_block body st0 ENTRY None) as [t cur]. destruct Inv as [(F & W & Res) Cl].
+  destruct (Cl _ Hr) as (d & Ed & Pd). subst cur. simpl in *.
+  destruct Res as (_ & _ & _ & Hd).
+  eapply path_trans; [eapply path_ext; [apply ext_ae | exact Pd]|].
+  apply path_edge; [stp; exact Hd | stp; apply in_last].
+Qed.
+
+(* a break / continue that escapes the body was diagnosed *)
+Theorem escaping_jump_diagnosed body o :
+  run_block body o -> o = OBreak \/ o = OContinue -> 0 < n_outside (build_function body).
+Proof.
+  intros Hr Ho. unfold build_function. assert (Inv := function_inv body).
+  destruct (build_block body st0 ENTRY None) as [t cur]. destruct Inv as [_ Cl].
+  specialize (Cl _ Hr). destruct Ho; subst o; simpl in Cl; stp; lia.
 Qed.
